@@ -70,10 +70,15 @@ SITE = {
     ("in", "threadcmpempty"): ["from concurrent.futures import ThreadPoolExecutor", "s = snapshot()", "with ThreadPoolExecutor(1) as ex:", "    assert ex.submit(lambda: 5 in s).result()"],
     ("[k]", "threadcmpempty"): ["import threading", "s = snapshot({'a': 1})", "r = []", "t = threading.Thread(target=lambda: r.append(s['b'] == 5))", "t.start()", "t.join()", "assert r == [True]"],
     ("in", "threadcmpwrong"): ["from concurrent.futures import ThreadPoolExecutor", "s = snapshot([4])", "with ThreadPoolExecutor(1) as ex:", "    assert ex.submit(lambda: 5 in s).result()"],
+    # code objects that start on the same line with the same name, each holding its own snapshot
+    ("<=", "lambdasgood"): ["lo, hi = (lambda v: v >= snapshot(0)), (lambda v: v <= snapshot(100))", "assert lo(5) and hi(5)"],
+    ("==", "lambdasgood"): ["f, g = (lambda: 1 == snapshot(1)), (lambda: 'a' == snapshot('a'))", "assert f() and g() and f()"],
+    ("in", "genexprsgood"): ["a, b = list(x in snapshot([1, 2]) for x in (1, 2)), list(x in snapshot(['p']) for x in ('p',))", "assert all(a) and all(b)"],
+    ("==", "lambdaswrong"): ["f, g = (lambda: 1 == snapshot(1)), (lambda: 'a' == snapshot('b'))", "assert f() and g()"],
     ("[k]<=", "wrong"): ['assert 8 <= snapshot({"a": 5})["a"]'],
     ("[k]in", "wrong"): ['assert 8 in snapshot({"a": [5]})["a"]'],
 }
-BAD = {"wrong", "empty", "wrongkey", "loopbad", "loopbadlast", "wrongnested", "nosrcwrong", "nosrcempty", "threadwrong", "threadempty", "threadcmpwrong", "threadcmpempty"}
+BAD = {"wrong", "empty", "wrongkey", "loopbad", "loopbadlast", "wrongnested", "nosrcwrong", "nosrcempty", "threadwrong", "threadempty", "threadcmpwrong", "threadcmpempty", "lambdaswrong"}
 OPS = ("==", "<=", ">=", "in", "[k]")
 
 
